@@ -1,23 +1,27 @@
 """Overlay generation: binds the harness to /repo's *current* working tree without writing there.
 
-plain : virtual package github.com/tencent/goom/zzverif (bridge) + in-package export files.
+plain : virtual packages github.com/tencent/goom/zzverif/<name> (one per directory under
+        harness/bridge/) + in-package export files (harness/inpkg/<dir with __ for />/<x>.go is
+        presented as /repo/<dir>/zz_verif_<x>.go).
 shim  : plain + copies of the synchronising files, regenerated from the working tree at every
         check, whose only difference is the import path of sync / sync/atomic / syscall.
 """
-import os, json, subprocess, glob
+import os, json, glob
 
 VERIF = os.path.dirname(os.path.dirname(os.path.abspath(__file__)))
 REPO = '/repo'
 H = os.path.join(VERIF, 'harness')
 
-# virtual files: path inside /repo -> file under /verif/harness
-PLAIN = {
-    'zzverif/bridge.go': 'bridge/bridge.go',
-}
+
+def _bridge():
+    m = {}
+    for f in sorted(glob.glob(os.path.join(H, 'bridge', '*', '*.go')) + glob.glob(os.path.join(H, 'bridge', '*', '*.s'))):
+        rel = os.path.relpath(f, os.path.join(H, 'bridge'))
+        m[os.path.join('zzverif', rel)] = f
+    return m
 
 
 def _inpkg():
-    """in-package export files: harness/inpkg/<dir with __ for />/<name>.go -> /repo/<dir>/zz_verif_<name>.go"""
     m = {}
     for d in sorted(glob.glob(os.path.join(H, 'inpkg', '*'))):
         if not os.path.isdir(d):
@@ -26,17 +30,19 @@ def _inpkg():
         if rel == 'ROOT':
             rel = ''
         for f in sorted(glob.glob(os.path.join(d, '*.go'))):
-            m[os.path.join(rel, 'zz_verif_' + os.path.basename(f))] = os.path.relpath(f, H)
+            m[os.path.join(rel, 'zz_verif_' + os.path.basename(f))] = f
     return m
 
 
 def generate(kind, builddir):
     rep = {}
-    for k, v in list(PLAIN.items()) + list(_inpkg().items()):
-        rep[os.path.join(REPO, k)] = os.path.join(H, v)
+    for k, v in list(_bridge().items()) + list(_inpkg().items()):
+        rep[os.path.join(REPO, k)] = v
     if kind == 'shim':
         import shimgen
         rep.update(shimgen.generate(builddir))
     path = os.path.join(builddir, 'overlay-%s.json' % kind)
-    json.dump({'Replace': rep}, open(path, 'w'), indent=1)
+    tmp = path + '.%d.tmp' % os.getpid()
+    json.dump({'Replace': rep}, open(tmp, 'w'), indent=1)
+    os.replace(tmp, path)
     return path
